@@ -177,7 +177,12 @@ def gen_op(rng):
         chars = [rng.choice([0, 1, 3, 4, 5]) for _ in range(rng.choice([1, 1, 2]))]   # sqlglot does not parse READ UNCOMMITTED
         if len(chars) == 2 and (chars[0] < 4) == (chars[1] < 4):
             chars = chars[:1]
-        pre = rng.choice(["", "SESSION "])
+        pre = rng.choice(["", "SESSION ", "", "SESSION ", "GLOBAL "])
+        if pre == "GLOBAL ":
+            # the GLOBAL spelling is an assignment in a scope that is not the session's: refused like every other one (the model's
+            # item for that is an IVar with scope ScOther), the session's copies stay as they are
+            return dict(kind="set", sql="SET GLOBAL TRANSACTION " + ", ".join(TX[c] for c in chars),
+                        term=f"(OSet [IVar false ScOther {S('transaction_isolation')} (RVal (VStr {S('x')}))])")
         return dict(kind="set", sql=f"SET {pre}TRANSACTION " + ", ".join(TX[c] for c in chars),
                     term="(OSet [ITransaction " + core.coq_list([f"{c}%nat" for c in chars]) + "])")
     if r < 0.9:
